@@ -176,7 +176,20 @@ func (x *Exec) applyContract(st *State, fr *Frame, site ssa.Instruction, c *Cont
 	normal := func(s *State) {
 		e2, res := doEffects(s, false)
 		for _, en := range c.Ensures {
-			s.assume(x.quantifyForalls(e2, c, unbound, qreq, en))
+			if mentionsTrace(en.Expr) {
+				continue // speaks about the callee's own atomic points, which the caller's trace does not contain
+			}
+			// a callee clause that cannot be evaluated at this call site is simply not used
+			func() {
+				defer func() {
+					if r := recover(); r != nil {
+						if _, ok := r.(*EngineError); !ok {
+							panic(r)
+						}
+					}
+				}()
+				s.assume(x.quantifyForalls(e2, c, unbound, qreq, en))
+			}()
 		}
 		for _, en := range c.EnsuresA {
 			s.assume(e2.hyp(en))
@@ -1042,4 +1055,20 @@ func (x *Exec) havocSlice(st *State, c *Contract, src string, env *CEnv) {
 			i.S, m.idx(), inR.S, na.S, i.S, old.S, i.S, na.S, i.S))
 		st.heapSet(key, store(h, v.arr(), na))
 	}
+}
+
+var traceForms = map[string]bool{"evis": true, "evarg": true, "evres": true, "evrecv": true, "count": true, "nemitted": true, "first": true, "last": true, "at": true}
+
+// mentionsTrace: does a clause speak about events of the ghost trace?
+func mentionsTrace(e ast.Expr) bool {
+	found := false
+	ast.Inspect(e, func(n ast.Node) bool {
+		if ce, ok := n.(*ast.CallExpr); ok {
+			if id, ok := ce.Fun.(*ast.Ident); ok && traceForms[id.Name] {
+				found = true
+			}
+		}
+		return !found
+	})
+	return found
 }
